@@ -242,8 +242,13 @@ def report(pid, mod, findings, tier, seed, descs, results, lost, wall):
         mod.post(results)
     violations, known_hits, kf_witness = [], {}, {}
     nontrivial_keys = set()
+    weight_total, weight_nontrivial = 0, 0
     for r in results:
+        weight_total += r.get('weight', 1)
         if r.get('nontrivial'):
+            if r['key'] not in nontrivial_keys:
+                weight_nontrivial += r.get('nontrivial_weight',
+                                           r.get('weight', 1))
             nontrivial_keys.add(r['key'])
         if not r.get('items'):
             continue
@@ -255,8 +260,9 @@ def report(pid, mod, findings, tier, seed, descs, results, lost, wall):
             r['unexplained'] = unexplained
             violations.append(r)
     coverage = {
-        'evaluations': len(results),
-        'distinct_nontrivial': len(nontrivial_keys),
+        'evaluations': weight_total,
+        'distinct_nontrivial': weight_nontrivial,
+        'work_units': len(results),
         'rule': mod.RULE,
         'samples': [],
         'planned': len(descs),
@@ -287,8 +293,8 @@ def report(pid, mod, findings, tier, seed, descs, results, lost, wall):
                           'effective_seed': getattr(mod, 'eff_seed',
                                                     lambda s: s)(seed)})
     print('%s %s seed=%d: %d cases, %d distinct non-trivial, %d with '
-          'discrepancies, %.1fs' % (pid, tier, seed, len(results),
-                                    len(nontrivial_keys),
+          'discrepancies, %.1fs' % (pid, tier, seed, weight_total,
+                                    weight_nontrivial,
                                     coverage['cases_with_items'], wall))
     for k in sorted(stats):
         if isinstance(stats[k], (int, float)):
